@@ -4,6 +4,9 @@
 
 use std::collections::HashMap;
 use std::fmt::Debug;
+#[cfg(rfsm_verif)]
+use crate::verif_seams::sync::mpsc::Sender;
+#[cfg(not(rfsm_verif))]
 use std::sync::mpsc::Sender;
 
 #[cfg(feature = "Debug")]
